@@ -184,3 +184,105 @@ def obj_vec_class():
                 arr = arr.astype(object)
             return arr.view(Vec)
     return ObjVec
+
+
+class SymMatrix:
+    """recording twin of a scipy sparse matrix: entries in a dict (duplicates summed), enough of the API for the assembly code"""
+
+    def __init__(self, shape=None, entries=None):
+        self.shape = tuple(shape) if shape is not None else None
+        self.e = dict(entries or {})
+
+    def _grow(self, i, j):
+        if self.shape is None or i >= self.shape[0] or j >= self.shape[1]:
+            s = self.shape or (0, 0)
+            self.shape = (max(s[0], i + 1), max(s[1], j + 1))
+
+    def add(self, i, j, v):
+        i, j = int(i), int(j)
+        self._grow(i, j)
+        cur = self.e.get((i, j))
+        self.e[(i, j)] = v if cur is None else cur + v
+
+    def __getitem__(self, k):
+        i, j = int(k[0]), int(k[1])
+        return self.e.get((i, j), 0)
+
+    def __setitem__(self, k, v):
+        i, j = int(k[0]), int(k[1])
+        self._grow(i, j)
+        self.e[(i, j)] = v
+
+    def tocsc(self):
+        return self
+
+    tocsr = tocoo = tolil = tocsc
+
+    def conj(self):
+        return self
+
+    def transpose(self):
+        return SymMatrix((self.shape[1], self.shape[0]), {(j, i): v for (i, j), v in self.e.items()})
+
+    @property
+    def T(self):
+        return self.transpose()
+
+    def __matmul__(self, o):
+        out = SymMatrix((self.shape[0], o.shape[1]))
+        byrow = {}
+        for (k, j), v in o.e.items():
+            byrow.setdefault(k, []).append((j, v))
+        for (i, k), a in self.e.items():
+            for (j, b) in byrow.get(k, ()):
+                out.add(i, j, a * b)
+        return out
+
+    def dot(self, o):
+        if isinstance(o, SymMatrix):
+            return self @ o
+        out = [0] * self.shape[0]
+        for (i, j), v in self.e.items():
+            out[i] = out[i] + v * o[j]
+        return _np.array(out, dtype=object)
+
+    def get(self, i, j):
+        return self.e.get((i, j), 0)
+
+
+class SpStub:
+    """scipy.sparse twin used while values are symbolic"""
+
+    @staticmethod
+    def _from_triplets(arg, shape=None, dtype=None):
+        if isinstance(arg, tuple) and len(arg) == 2 and isinstance(arg[1], tuple):
+            data, (rows, cols) = arg
+            m = SymMatrix(shape)
+            for v, i, j in zip(list(data), list(rows), list(cols)):
+                m.add(i, j, v)
+            return m
+        if isinstance(arg, tuple) and len(arg) == 2:
+            return SymMatrix(arg)
+        raise TypeError("unsupported sparse constructor argument")
+
+    csc_matrix = csr_matrix = coo_matrix = _from_triplets
+
+    @staticmethod
+    def lil_matrix(shape, dtype=None):
+        return SymMatrix(shape)
+
+    @staticmethod
+    def diags(v, format=None, **kw):
+        v = list(v)
+        return SymMatrix((len(v), len(v)), {(i, i): x for i, x in enumerate(v)})
+
+
+def dense_entries(mat):
+    """(shape, dict (i,j)->value) of a SymMatrix or a real scipy matrix"""
+    if isinstance(mat, SymMatrix):
+        return mat.shape, dict(mat.e)
+    coo = mat.tocoo()
+    e = {}
+    for i, j, v in zip(coo.row, coo.col, coo.data):
+        e[(int(i), int(j))] = e.get((int(i), int(j)), 0) + (v.item() if hasattr(v, "item") else v)
+    return tuple(mat.shape), e
